@@ -40,8 +40,6 @@ THEOREMS = [
     "Nix.C10.C10_dict_consistent",
     "Nix.C10.C10_dict_setitem_getitem",
     "Nix.C10.C10_dict_delitem",
-    "Nix.C10.C10_dict_complete_partial",
-    "Nix.C10.C10_dict_complete_counterexample",
 ]
 ASSUMPTIONS = [
     "the state of the model is one section of a file written by the current nixio (format >= 1.1.1); persistence "
@@ -1081,7 +1079,7 @@ def _find(state, k):
             return props[i]
         return None
     for p in props:
-        if ("n" in k and p["name"] == k["n"] and not _is_uuid_like(from_cps(k["n"]))) or ("id" in k and p["id"] == k["id"]):
+        if ("n" in k and p["name"] == k["n"]) or ("id" in k and p["id"] == k["id"]):
             return p
     return None
 
@@ -1165,7 +1163,9 @@ def check_history(ctx, ops, n, label):
                         if newp[0]["dtype"] != want_dt or newp[0]["vals"] != cl[2]:
                             fail("created property does not hold the given values with their type", k,
                                  [newp[0]["dtype"], newp[0]["vals"][:8]], [want_dt, cl[2][:8]], "Section.create_property")
-                if kind == "create" and cl is not None and cl[0] == "mixed" and out.get("err") != "TypeError":
+                fresh_name = kind == "create" and op[1] and 47 not in op[1] and \
+                    all(p["name"] != op[1] for p in prev["props"])
+                if fresh_name and cl is not None and cl[0] == "mixed" and out.get("err") != "TypeError":
                     fail("mixed-type values were not refused with a type error", k, out.get("err", "accepted"),
                          "TypeError", "Section.create_property")
             if kind == "clear" and "err" not in out:
@@ -1308,19 +1308,9 @@ def oracle(ctx, broken, hints):
 
 
 def matches_known(entry, failure):
-    """C10-uuid-shaped-name (D6): a property/section whose *name* parses as a UUID is listed by items() but
-    cannot be reached by `in` / `[]` — only dictionary failures whose key is such a name match"""
-    if entry.get("class") == "dict-key-is-uuid-shaped-name":
-        key = failure.input.get("key") if isinstance(failure.input, dict) else None
-        return bool(failure.what.startswith("dict-") and isinstance(key, str) and _is_uuid_like(key))
+    """no open known finding for C10 (the UUID-shaped-name defect D6 was repaired in /repo, commit 2322936;
+    its histories stay in FIXED_HISTORIES / ORACLE_FIXED so that a regression is a VIOLATION)"""
     return False
-
-
-def reproduces(ctx, entry):
-    if entry.get("class") == "dict-key-is-uuid-shaped-name":
-        fs = check_history(ctx, ORACLE_FIXED[0][1], 999999, "known")
-        return any(matches_known(entry, f) for f in fs)
-    return True
 
 
 def replay_failure(ctx, fj):
